@@ -381,7 +381,8 @@ Definition jstep (j : jstate) (o : op) (w b : N) : bool * jstate :=
       let b' := jb j - bytes in
       (common (jm j) && (b =? b'),
        {| jm := jm j; jw := w; jb := b'; jshrunk := jshrunk j; jsent := jsent j; japp := japp j |})
-  | Nop => (common (jm j) && (b =? jb j),
+  | RttUpd _ _ _ | Nop =>
+           (common (jm j) && (b =? jb j),
             {| jm := jm j; jw := w; jb := jb j; jshrunk := jshrunk j; jsent := jsent j; japp := japp j |})
   end.
 
@@ -408,7 +409,7 @@ Definition judge (case rows : list Z) : bool :=
           let m := zN m in
           (* a new controller: at least the minimum window, nothing in flight *)
           (0 <=? w)%Z && (floor_u32 m <=? zN w) && (zN w <? u32_max) && (b =? 0)%Z
-          && judge_from {| jm := m; jw := zN w; jb := 0; jshrunk := None; jsent := jsent j; japp := false |} (decode 0 t) rows'
+          && judge_from {| jm := m; jw := zN w; jb := 0; jshrunk := None; jsent := false; japp := false |} (decode 0 t) rows'
       | _ => false
       end
   end.
